@@ -76,6 +76,11 @@ def plan(case):
                      "version": rq.get("version", "1.1"), "body": rq.get("body", "") if rq.get("framing") in ("cl", "chunked") else ""})
         cur += head
         if waiting:
+            # a client may have sent the first bytes of the body along with the header block before it decides to wait
+            hs = rq.get("head_start", 0)
+            if hs and len(body) > hs and rq.get("framing") == "cl":
+                cur += body[:hs]
+                body = body[hs:]
             segs.append(cur)
             waits.append(curwait)
             cur = ""
@@ -269,6 +274,8 @@ def validate(case):
             raise C.CaseInvalid("empty cl")
         if r.get("method", "POST") not in ("POST", "PUT", "GET") or r.get("split", False) not in (False, True, 2):
             raise C.CaseInvalid("method")
+        if r.get("head_start", 0) not in (0, 1, 2, 5):
+            raise C.CaseInvalid("head_start")
     adj = case.get("adj") or {}
     if adj.get("channel_request_lookahead", 0) not in (0, 1, 2, 3) or adj.get("threads", 1) not in (1, 2):
         raise C.CaseInvalid("adj")
@@ -337,7 +344,7 @@ def req_strategy():
             body = ""
         return {"version": version, "framing": fr, "body": body, "expect": draw(st.sampled_from([True, True, False])),
                 "wait": draw(st.sampled_from([True, True, False])), "split": draw(st.sampled_from([False, True, 2])), "conn": draw(st.sampled_from([None, None, None, "keep-alive", "close"])),
-                "method": draw(st.sampled_from(["POST", "PUT", "GET"]))}
+                "method": draw(st.sampled_from(["POST", "PUT", "GET"])), "head_start": draw(st.sampled_from([0, 0, 0, 1, 2]))}
 
     return build()
 
@@ -371,6 +378,8 @@ FIXED = [
     {"mode": "e3", "reqs": [N, dict(X, wait=False), dict(X, framing="none", body="")], "adj": {"threads": 1}},
     {"mode": "e3", "reqs": [N, dict(X, framing="badcl"), N], "adj": {"threads": 1}},
     {"mode": "e3", "reqs": [N, dict(X, wait=False, split=True)], "adj": {"threads": 1}},
+    {"mode": "e3", "reqs": [N, dict(X, head_start=1)], "adj": {"threads": 1}},
+    {"mode": "e3", "reqs": [N, N, dict(X, head_start=2, body="abcdefgh"), N], "adj": {"threads": 2, "channel_request_lookahead": 1}},
     {"mode": "e3", "reqs": [N, dict(X, wait=False, split=2, body="abcdefgh")], "adj": {"threads": 1}},
     {"mode": "e3", "reqs": [N, dict(X, wait=False, split=2, body="abcdefgh", framing="chunked"), N], "adj": {"threads": 1, "channel_request_lookahead": 1}},
     {"mode": "e3", "reqs": [N, dict(X, wait=False, split=True, framing="chunked"), N], "adj": {"threads": 2, "channel_request_lookahead": 1}, "capacity": 40},
@@ -382,6 +391,7 @@ def e2_table():
     kinds = [
         {"version": "1.1", "framing": "cl", "body": "abc", "expect": True, "wait": True},
         {"version": "1.1", "framing": "cl", "body": "abc", "expect": True, "wait": False},
+        {"version": "1.1", "framing": "cl", "body": "abcdef", "expect": True, "wait": True, "head_start": 2},
         {"version": "1.1", "framing": "chunked", "body": "abcd", "expect": True, "wait": True},
         {"version": "1.1", "framing": "none", "expect": True},
         {"version": "1.1", "framing": "cl0", "expect": True},
